@@ -41,6 +41,21 @@ fn scheme_of(b: &[u8]) -> R<SignatureSchemes> {
         _ => Err("facade: bad scheme byte".into()),
     }
 }
+/// A copy of `b` that does NOT start on an 8-byte boundary (a slice taken out of the middle of a frame): callers of the
+/// trait-level routes hand over views into their own buffers, not fresh allocations.
+struct Unaligned(Vec<u8>, usize);
+impl Unaligned {
+    fn of(b: &[u8]) -> Self {
+        let mut v = vec![0u8; b.len() + 16];
+        let base = v.as_ptr() as usize;
+        let off = (8 - base % 8) % 8 + 1 + b.len() % 7;
+        v[off..off + b.len()].copy_from_slice(b);
+        Unaligned(v, off)
+    }
+    fn get(&self) -> &[u8] {
+        &self.0[self.1..self.0.len() - 16 + self.1]
+    }
+}
 fn u64_of(b: &[u8]) -> R<u64> {
     let a: [u8; 8] = b.try_into().map_err(|_| "facade: bad u64".to_string())?;
     Ok(u64::from_le_bytes(a))
@@ -730,7 +745,29 @@ fn dispatch<C: CI>(op: Op, a: &[&[u8]]) -> R<Vec<Vec<u8>>> {
                     let tail = data.split_off(half);
                     run::<C, _>(&agg, data.into_iter().chain(tail))
                 }
-                _ => run::<C, _>(&agg, data.into_iter().flat_map(|e| std::iter::once(e))),
+                4 => run::<C, _>(&agg, data.into_iter().flat_map(|e| std::iter::once(e))),
+                // NOT fused (a paged source, `mpsc::Receiver::try_iter`): the list ends at the first None; what the source
+                // yields when it is asked again after that is not part of the list
+                5 => {
+                    // the first half, None, then the second half
+                    let mut it = data.into_iter();
+                    let mut n = 0usize;
+                    run::<C, _>(&agg, std::iter::from_fn(move || {
+                        n += 1;
+                        if n == half + 1 { None } else { it.next() }
+                    }))
+                }
+                _ => {
+                    // the whole list, None, then the whole list once more
+                    let again = data.clone();
+                    let len = data.len();
+                    let mut it = data.into_iter().chain(again);
+                    let mut n = 0usize;
+                    run::<C, _>(&agg, std::iter::from_fn(move || {
+                        n += 1;
+                        if n == len + 1 { None } else { it.next() }
+                    }))
+                }
             }
             .map_err(e)?;
             Ok(vec![])
@@ -1177,10 +1214,13 @@ fn dispatch<C: CI>(op: Op, a: &[&[u8]]) -> R<Vec<Vec<u8>>> {
         }
         Op::EncodeInterrupted => {
             // the CALLER's side of an encoding call fails part-way (the sink, not the value)
-            struct Failing(usize);
+            struct Failing(usize, bool);
             impl std::io::Write for Failing {
                 fn write(&mut self, b: &[u8]) -> std::io::Result<usize> {
                     if self.0 == 0 {
+                        if self.1 {
+                            panic!("caller: sink failed");
+                        }
                         return Err(std::io::Error::new(std::io::ErrorKind::Other, "sink full"));
                     }
                     let n = b.len().min(self.0);
@@ -1191,15 +1231,18 @@ fn dispatch<C: CI>(op: Op, a: &[&[u8]]) -> R<Vec<Vec<u8>>> {
                     Ok(())
                 }
             }
-            fn interrupted<T: Wire + serde::Serialize>(ci: Codec, b: &[u8], k: usize) -> R<Vec<Vec<u8>>> {
+            fn interrupted<T: Wire + serde::Serialize>(ci: Codec, b: &[u8], k: usize, panics: bool) -> R<Vec<Vec<u8>>> {
                 let v = T::dec(ci, b)?;
-                let failed = serde_json::to_writer(Failing(k), &v).is_err();
-                Ok(vec![flag(failed)])
+                // the caller's own unwinding is the caller's business: caught here
+                let r = catch_unwind(AssertUnwindSafe(|| serde_json::to_writer(Failing(k, panics), &v).is_err()));
+                simtypes::take_panic();
+                Ok(vec![flag(r.unwrap_or(true))])
             }
             let ty = Ty::from_u8(*arg(a, 0)?.first().ok_or("ty")?).ok_or("ty")?;
             let ci = Codec::from_u8(*arg(a, 1)?.first().ok_or("codec")?).ok_or("codec")?;
             let k = u64_of(arg(a, 3)?)? as usize;
-            with_ty!(ty, C, interrupted(ci, arg(a, 2)?, k))
+            let panics = a.get(4).map(|b| b == &[1u8]).unwrap_or(false);
+            with_ty!(ty, C, interrupted(ci, arg(a, 2)?, k, panics))
         }
         Op::PokCommitNestedAsRef => {
             struct Nested<'a, C: CI> {
@@ -1267,11 +1310,75 @@ fn dispatch<C: CI>(op: Op, a: &[&[u8]]) -> R<Vec<Vec<u8>>> {
                 Ok(v) => Err(format!("no entry {}: {:?}", k, v.is_ok())),
             }
         }
+        Op::FickleMessage => {
+            struct Fickle {
+                views: [Vec<u8>; 2],
+                calls: std::cell::Cell<usize>,
+            }
+            impl AsRef<[u8]> for Fickle {
+                fn as_ref(&self) -> &[u8] {
+                    let n = self.calls.get();
+                    self.calls.set(n + 1);
+                    &self.views[n % 2]
+                }
+            }
+            let which = *arg(a, 0)?.first().ok_or("which")?;
+            let scheme = scheme_of(arg(a, 2)?)?;
+            let f = Fickle { views: [arg(a, 3)?.to_vec(), arg(a, 4)?.to_vec()], calls: std::cell::Cell::new(0) };
+            match which {
+                0 => {
+                    let pk = PublicKey::<C>::try_from(arg(a, 1)?).map_err(e)?;
+                    Ok(vec![Vec::from(&pk.sign_crypt(scheme, &f))])
+                }
+                1 => {
+                    let pk = PublicKey::<C>::try_from(arg(a, 1)?).map_err(e)?;
+                    Ok(vec![Vec::from(&pk.encrypt_time_lock(scheme, &f, arg(a, 5)?).map_err(e)?)])
+                }
+                2 => {
+                    let sk = sk_lenient::<C>(arg(a, 1)?)?;
+                    let sig = match scheme {
+                        SignatureSchemes::Basic => Signature::<C>::Basic(<C as BlsSignatureBasic>::sign(&sk.0, &f).map_err(e)?),
+                        SignatureSchemes::MessageAugmentation => Signature::<C>::MessageAugmentation(<C as BlsSignatureMessageAugmentation>::sign(&sk.0, &f).map_err(e)?),
+                        SignatureSchemes::ProofOfPossession => Signature::<C>::ProofOfPossession(<C as BlsSignaturePop>::sign(&sk.0, &f).map_err(e)?),
+                    };
+                    Ok(vec![Vec::from(&sig)])
+                }
+                _ => {
+                    let pk = PublicKey::<C>::try_from(arg(a, 1)?).map_err(e)?;
+                    let (u, v, w) = <C as BlsSignCrypt>::seal(pk.0, &f, dst_of::<C>(scheme));
+                    Ok(vec![Vec::from(&SignCryptCiphertext::<C> { u, v, w, scheme })])
+                }
+            }
+        }
+        Op::FromFickleList => {
+            struct Fickle<C: CI> {
+                views: [Vec<Signature<C>>; 2],
+                calls: std::cell::Cell<usize>,
+            }
+            impl<C: CI> AsRef<[Signature<C>]> for Fickle<C> {
+                fn as_ref(&self) -> &[Signature<C>] {
+                    let n = self.calls.get();
+                    self.calls.set(n + 1);
+                    &self.views[n % 2]
+                }
+            }
+            let kind = *arg(a, 0)?.first().ok_or("kind")?;
+            let n1 = u64_of(arg(a, 1)?)? as usize;
+            let sigs = many(a, 2, |b| Signature::<C>::try_from(b).map_err(e))?;
+            let n1 = n1.min(sigs.len());
+            let f = Fickle::<C> { views: [sigs[..n1].to_vec(), sigs[n1..].to_vec()], calls: std::cell::Cell::new(0) };
+            if kind == 0 {
+                Ok(vec![Vec::from(&MultiSignature::<C>::from_signatures(f).map_err(e)?)])
+            } else {
+                Ok(vec![Vec::from(&AggregateSignature::<C>::from_signatures(f).map_err(e)?)])
+            }
+        }
         Op::SplitFaultyRng => {
             struct Faulty {
                 inner: ChaCha20Rng,
                 n: u64,
                 at: u64,
+                width: u64,
                 fill: u8,
             }
             impl rand_core::RngCore for Faulty {
@@ -1286,7 +1393,7 @@ fn dispatch<C: CI>(op: Op, a: &[&[u8]]) -> R<Vec<Vec<u8>>> {
                     u64::from_le_bytes(b)
                 }
                 fn fill_bytes(&mut self, dest: &mut [u8]) {
-                    let hit = self.n == self.at;
+                    let hit = self.n >= self.at && self.n < self.at + self.width;
                     self.n += 1;
                     self.inner.fill_bytes(dest);
                     if hit {
@@ -1300,7 +1407,7 @@ fn dispatch<C: CI>(op: Op, a: &[&[u8]]) -> R<Vec<Vec<u8>>> {
             }
             impl rand_core::CryptoRng for Faulty {}
             let sk = sk_lenient::<C>(arg(a, 0)?)?;
-            let rng = Faulty { inner: ChaCha20Rng::from_seed(seed32(arg(a, 3)?)?), n: 0, at: u64_of(arg(a, 4)?)?, fill: *arg(a, 5)?.first().ok_or("fill")? };
+            let rng = Faulty { inner: ChaCha20Rng::from_seed(seed32(arg(a, 3)?)?), n: 0, at: u64_of(arg(a, 4)?)?, width: a.get(6).map(|b| u64_of(b)).transpose()?.unwrap_or(1).max(1), fill: *arg(a, 5)?.first().ok_or("fill")? };
             let shares = sk.split_with_rng(u64_of(arg(a, 1)?)? as usize, u64_of(arg(a, 2)?)? as usize, rng).map_err(e)?;
             Ok(shares.iter().map(Vec::from).collect())
         }
@@ -1646,13 +1753,15 @@ fn dispatch_alt<C: CI>(op: Op, a: &[&[u8]], route: u8) -> R<Option<Vec<Vec<u8>>>
         Op::ScDecrypt => {
             let ct = SignCryptCiphertext::<C>::try_from(arg(a, 0)?).map_err(e)?;
             let sk = sk_lenient::<C>(arg(a, 1)?)?;
-            some(ctopt(<C as BlsSignCrypt>::unseal(ct.u, &ct.v, ct.w, &sk.0, dst_of::<C>(ct.scheme)).into()))
+            let v = Unaligned::of(&ct.v);
+            some(ctopt(<C as BlsSignCrypt>::unseal(ct.u, v.get(), ct.w, &sk.0, dst_of::<C>(ct.scheme)).into()))
         }
         Op::DkDecrypt => {
             let dk = SignCryptDecryptionKey::<C>::try_from(arg(a, 0)?).map_err(e)?;
             let ct = SignCryptCiphertext::<C>::try_from(arg(a, 1)?).map_err(e)?;
             let ok = <C as BlsSignCrypt>::valid(ct.u, &ct.v, ct.w, dst_of::<C>(ct.scheme));
-            some(ctopt(<C as BlsSignCrypt>::decrypt(&ct.v, dk.0, ok).into()))
+            let v = Unaligned::of(&ct.v);
+            some(ctopt(<C as BlsSignCrypt>::decrypt(v.get(), dk.0, ok).into()))
         }
         Op::DShareVerify => {
             let d = SignDecryptionShare::<C>::try_from(arg(a, 0)?).map_err(e)?;
@@ -1666,7 +1775,8 @@ fn dispatch_alt<C: CI>(op: Op, a: &[&[u8]], route: u8) -> R<Option<Vec<Vec<u8>>>
             let ct = SignCryptCiphertext::<C>::try_from(arg(a, 0)?).map_err(e)?;
             let ds = many(a, 1, |b| SignDecryptionShare::<C>::try_from(b).map_err(e))?;
             let inner: Vec<_> = ds.iter().map(|s| s.0).collect();
-            some(ctopt(<C as BlsSignCrypt>::unseal_with_shares(ct.u, &ct.v, ct.w, &inner, dst_of::<C>(ct.scheme)).into()))
+            let v = Unaligned::of(&ct.v);
+            some(ctopt(<C as BlsSignCrypt>::unseal_with_shares(ct.u, v.get(), ct.w, &inner, dst_of::<C>(ct.scheme)).into()))
         }
         Op::TimeLock => {
             let pk = PublicKey::<C>::try_from(arg(a, 0)?).map_err(e)?;
@@ -1687,7 +1797,8 @@ fn dispatch_alt<C: CI>(op: Op, a: &[&[u8]], route: u8) -> R<Option<Vec<Vec<u8>>>
             let ct = TimeCryptCiphertext::<C>::try_from(arg(a, 0)?).map_err(e)?;
             let sig = Signature::<C>::try_from(arg(a, 1)?).map_err(e)?;
             let (s, p) = sig_parts(&sig);
-            let out = if s == ct.scheme { <C as BlsTimeCrypt>::unseal(ct.u, &ct.v, &ct.w, p, 1u8.into()) } else { <C as BlsTimeCrypt>::unseal(ct.u, &ct.v, &ct.w, SigPt::<C>::default(), 0u8.into()) };
+            let w = Unaligned::of(&ct.w);
+            let out = if s == ct.scheme { <C as BlsTimeCrypt>::unseal(ct.u, &ct.v, w.get(), p, 1u8.into()) } else { <C as BlsTimeCrypt>::unseal(ct.u, &ct.v, w.get(), SigPt::<C>::default(), 0u8.into()) };
             some(ctopt(out.into()))
         }
         Op::EgEncrypt => {
